@@ -9,6 +9,67 @@ use crate::engine::Engine;
 pub struct C09Engine;
 pub static C09: C09Engine = C09Engine;
 
+/// C20: program-level determinism (E2) plus the per-form instruction part (E5)
+pub struct C20Engine;
+pub static C20: C20Engine = C20Engine;
+
+impl Engine for C20Engine {
+    fn name(&self) -> &'static str {
+        "E2 run-sim + E5 insn-sim"
+    }
+    fn runs(&self, prop: &str, thorough: bool) -> u64 {
+        crate::e2::E2.runs(prop, thorough) + crate::e5::E5.runs(prop, thorough)
+    }
+    fn gen(&self, prop: &str, thorough: bool, seed: u64, idx: u64) -> Value {
+        let n1 = crate::e2::E2.runs(prop, thorough);
+        if idx < n1 {
+            json!({"e": "e2", "sc": crate::e2::E2.gen(prop, thorough, seed, idx)})
+        } else {
+            json!({"e": "e5", "sc": crate::e5::E5.gen(prop, thorough, seed, idx - n1)})
+        }
+    }
+    fn exec(&self, prop: &str, sc: &Value, ctx: &mut Ctx) {
+        if sc["e"] == "e2" {
+            crate::e2::E2.exec(prop, &sc["sc"], ctx)
+        } else {
+            crate::e5::E5.exec(prop, &sc["sc"], ctx)
+        }
+    }
+    fn shrink(&self, prop: &str, sc: &Value) -> Vec<Value> {
+        let e = sc["e"].clone();
+        let inner = if e == "e2" { crate::e2::E2.shrink(prop, &sc["sc"]) } else { crate::e5::E5.shrink(prop, &sc["sc"]) };
+        inner.into_iter().map(|x| json!({"e": e.clone(), "sc": x})).collect()
+    }
+    fn crash_context(&self, prop: &str, sc: &Value) -> String {
+        if sc["e"] == "e2" {
+            crate::e2::E2.crash_context(prop, &sc["sc"])
+        } else {
+            crate::e5::E5.crash_context(prop, &sc["sc"])
+        }
+    }
+    fn components(&self) -> (Vec<&'static str>, Vec<&'static str>) {
+        let (mut a, mut b) = crate::e2::E2.components();
+        let (c, d) = crate::e5::E5.components();
+        a.extend(c);
+        b.extend(d);
+        a.dedup();
+        b.sort();
+        b.dedup();
+        (a, b)
+    }
+    fn rule(&self, prop: &str) -> String {
+        format!("{} || {}", crate::e2::E2.rule(prop), crate::e5::E5.rule(prop))
+    }
+    fn assumptions(&self, prop: &str) -> Vec<String> {
+        let mut a = crate::e2::E2.assumptions(prop);
+        a.extend(crate::e5::E5.assumptions(prop));
+        a
+    }
+    fn level(&self, _prop: &str) -> &'static str {
+        "exploration"
+    }
+}
+
 impl Engine for C09Engine {
     fn name(&self) -> &'static str {
         "E1 api-sim + E5 insn-sim"
